@@ -284,6 +284,102 @@ def work_cases(shard):
     return part
 
 
+# what is left behind when the program stops with an error inside its handler, and execution goes on
+# from direct mode without RUN
+
+AFTER_HANDLERS = ['err', 'fault']
+AFTER_SOURCES = ['ERROR5', 'OVERFLOW', 'READ', 'GOTO']
+AFTER_DIRECT = [
+    [('goto', 10)], [('goto', 20)], [('resume', None)], [('resume', 'next')], [('error', 11)],
+    [P('z'), ('gosub', 800)], [('onerror', 0), ('goto', 10)],
+]
+
+
+def afterstop_cases():
+    out = []
+    for src in AFTER_SOURCES:
+        if src not in SOURCES:
+            continue
+        for h in AFTER_HANDLERS:
+            for di in range(len(AFTER_DIRECT)):
+                for twice in (False, True):
+                    out.append((src, h, di, twice))
+    return out
+
+
+def work_afterstop(shard):
+    from mc.progrun import split_output
+    part = Partial()
+    runner = Runner()
+    c = None
+    for src, h, di, twice in shard:
+        lines = [(5, [('onerror', 1000)]), (10, [P('a')] + list(SOURCES[src]) + [P('b')]), (20, [P('c')]), (30, [('end',)]),
+                 (800, [P('s'), ('return',)])] + handler_lines(h, True)
+        direct = list(AFTER_DIRECT[di])
+        text = MB.program_text(lines)
+        c = {'case': [src, h, di, twice], 'program': [t.decode('latin-1') for t in text], 'direct': MB.line_text(direct)}
+        # reference: the program, then the direct line (once or twice) on the state it left
+        variants = []
+        todo = [[]]
+        while todo:
+            ch = todo.pop()
+            m = MB.Machine(lines, ch)
+            steps = [m.run()]
+            for _ in range(2 if twice else 1):
+                before = len(''.join(m.trace))
+                o = m.run(direct=direct)
+                o.trace = o.trace[before:]
+                steps.append(o)
+            for j, ar in enumerate(m.choice_arity):
+                for alt in range(1, ar):
+                    todo.append(m.choices[:len(ch) + j] + [alt])
+            variants.append(steps)
+            if len(variants) > 8:
+                raise CheckError('too many model variants for %r' % (c,))
+        res = runner.run_program(text, horizon=600)
+        part.n += 1
+        part.traces += 1
+        got = [(res['trace'], res['final'])]
+        bad = None
+        if res['exc'] is not None or res['horizon']:
+            bad = ('after-stop/%s' % ('host-exception/' + H.exc_key(res['exc']) if res['exc'] is not None else 'no-termination'), repr(res['exc']))
+        else:
+            for _ in range(2 if twice else 1):
+                r = H.run(runner.s, MB.line_text(direct).encode('ascii'))
+                if r.exc is not None:
+                    bad = ('after-stop/host-exception/' + H.exc_key(r.exc), repr(r.exc))
+                    runner.s = None
+                    break
+                got.append(split_output(r.out))
+        if bad is None:
+            firstbad = None
+            for steps in variants:
+                vbad = None
+                for k, (o, g) in enumerate(zip(steps, got)):
+                    if o.final[0] == 'unspec':
+                        break
+                    exp = (o.trace, _O(o).final)
+                    if (g[0], g[1]) != exp and (g[0], g[1][:2]) != (exp[0], exp[1][:2]):
+                        what = 'the program' if k == 0 else 'direct line %r (%d. time)' % (MB.line_text(direct), k)
+                        vbad = ('after-stop/%s/%s/%s' % (h, MB.line_text(direct).split(' ')[0], 'program' if k == 0 else 'continuation-%d' % k),
+                                '%s printed %r and ended %r; reference %r, %r' % (what, g[0], g[1], exp[0], exp[1]))
+                        break
+                if vbad is None:
+                    firstbad = None
+                    break
+                firstbad = firstbad or vbad
+            bad = firstbad
+            steps = variants[0]
+        if bad:
+            part.violation(bad[0], '%s: program %s' % (bad[1], b' / '.join(text).decode('latin-1')), c)
+        kd = kind(steps[-1])
+        part.classes.add('after-stop/%s/%s/%s' % (src, h, kd))
+        part.outcome(kd)
+    if c:
+        part.sample(c)
+    return part
+
+
 def work_codes(shard):
     """ERROR n for every n: ERR in the handler, message without handler, in direct mode."""
     part = Partial()
@@ -324,6 +420,10 @@ def legs(ctx):
                       len(main), len(SOURCE_ORDER), len(POSITIONS), len(CONTEXTS), len(HANDLERS))),
         Leg('pairs', list(chunked(pairs, 60)), work_cases, exhaustive=True,
             bound='%d programs: all ordered pairs of 11 sources in consecutive lines x contexts x handlers' % len(pairs)),
+        Leg('after-stop', list(chunked(afterstop_cases(), 20)), work_afterstop, exhaustive=True,
+            bound='%d programs stopped by an error inside their handler x %d direct-mode continuations without RUN (GOTO back in, '
+                  'RESUME, ERROR, GOSUB): the trap must catch again, RESUME has nothing to resume' % (
+                      len(afterstop_cases()), len(AFTER_DIRECT))),
         Leg('codes', list(chunked(list(range(1, 256)), 8)), work_codes, exhaustive=True,
             bound='ERROR n for every n in 1..255 x {trapped, untrapped, direct, direct trapped}'),
     ]
